@@ -2,6 +2,7 @@ package props
 
 import (
 	"encoding/binary"
+	"encoding/json"
 	"fmt"
 	"os"
 	"path/filepath"
@@ -10,6 +11,7 @@ import (
 	"strings"
 	"sync"
 	"syscall"
+	"time"
 
 	"github.com/scigolib/hdf5/internal/zzverif/dump"
 	"github.com/scigolib/hdf5/internal/zzverif/ev"
@@ -95,7 +97,7 @@ func C07FieldLines(path string) []string {
 	fs, _ := c07Fields(b)
 	var out []string
 	for _, f := range fs {
-		out = append(out, fmt.Sprintf("%6d w%d %-24s %-12s own=%d ctx=%s", f.Off, f.Width, f.Struct, f.Kind, f.own, f.ctx))
+		out = append(out, fmt.Sprintf("%6d w%d %-24s %-12s own=%d ctx=%s", f.Off, f.Width, f.Struct, f.Kind, f.Own, f.Ctx))
 	}
 	return out
 }
@@ -145,9 +147,9 @@ func c07Cases(tier string) int {
 const c07PairCases = 32
 
 type c07PairInst struct {
-	seed   int
-	kind   string
-	fields []c07Field
+	Seed   int
+	Kind   string
+	Fields []c07Field
 }
 
 var (
@@ -166,6 +168,13 @@ func c07PairInstances(n int) []c07PairInst {
 		return l
 	}
 	c07Init()
+	var cached []c07PairInst
+	c07DiskCache(fmt.Sprintf("pairs%d", n), func() any { return c07PairInstancesCompute(n) }, &cached)
+	c07PairCache[n] = cached
+	return cached
+}
+
+func c07PairInstancesCompute(n int) []c07PairInst {
 	var out []c07PairInst
 	count := map[string]int{}
 	dir, _ := os.MkdirTemp("", "verif-c07-pairs-")
@@ -186,11 +195,11 @@ func c07PairInstances(n int) []c07PairInst {
 		inFile := map[string]bool{}
 		for i := 0; i < len(fields); {
 			j := i
-			for j < len(fields) && fields[j].Struct == fields[i].Struct && fields[j].own == fields[i].own {
+			for j < len(fields) && fields[j].Struct == fields[i].Struct && fields[j].Own == fields[i].Own {
 				j++
 			}
 			if st := fields[i].Struct; strings.HasPrefix(st, "msg:") && j-i >= 2 {
-				kind := st + ":" + fields[i].ctx
+				kind := st + ":" + fields[i].Ctx
 				if j-i >= 12 {
 					kind += ":large"
 				}
@@ -207,7 +216,6 @@ func c07PairInstances(n int) []c07PairInst {
 			i = j
 		}
 	}
-	c07PairCache[n] = out
 	return out
 }
 
@@ -215,6 +223,39 @@ var (
 	c07CoverMu    sync.Mutex
 	c07CoverCache = map[int]map[int]map[uint64]bool{}
 )
+
+// The class cover and the pair instances are derived from all seed files (seconds of decoding);
+// every shard process needs them, and a shard that dies on an input is restarted. They are
+// computed once per run and shared through the run's scratch directory.
+var c07CacheDir string
+
+func c07DiskCache(name string, compute func() any, into any) {
+	if c07CacheDir == "" {
+		b, _ := json.Marshal(compute())
+		_ = json.Unmarshal(b, into)
+		return
+	}
+	p := filepath.Join(c07CacheDir, name+".json")
+	for try := 0; try < 600; try++ {
+		if b, err := os.ReadFile(p); err == nil && json.Unmarshal(b, into) == nil {
+			return
+		}
+		// one process computes (it holds the lock file), the others wait for the result
+		lk, err := os.OpenFile(p+".lock", os.O_CREATE|os.O_EXCL|os.O_WRONLY, 0o644)
+		if err == nil {
+			lk.Close()
+			b, _ := json.Marshal(compute())
+			tmp := fmt.Sprintf("%s.tmp%d", p, os.Getpid())
+			_ = os.WriteFile(tmp, b, 0o644)
+			_ = os.Rename(tmp, p)
+			_ = json.Unmarshal(b, into)
+			return
+		}
+		time.Sleep(100 * time.Millisecond)
+	}
+	b, _ := json.Marshal(compute())
+	_ = json.Unmarshal(b, into)
+}
 
 // c07ClassCover decides, over all seeds in order, which fields get the complete value set:
 // the first field of a class (structure:kind, e.g. "GCOL:size") in a file is chosen while
@@ -227,6 +268,13 @@ func c07ClassCover(n int) map[int]map[uint64]bool {
 		return m
 	}
 	c07Init()
+	var cached map[int]map[uint64]bool
+	c07DiskCache(fmt.Sprintf("cover%d", n), func() any { return c07ClassCoverCompute(n) }, &cached)
+	c07CoverCache[n] = cached
+	return cached
+}
+
+func c07ClassCoverCompute(n int) map[int]map[uint64]bool {
 	out := map[int]map[uint64]bool{}
 	count := map[string]int{}
 	dir, _ := os.MkdirTemp("", "verif-c07-cover-")
@@ -246,7 +294,7 @@ func c07ClassCover(n int) map[int]map[uint64]bool {
 		fields, _ := c07Fields(b)
 		inFile := map[string]bool{}
 		for _, f := range fields {
-			cls := f.Struct + ":" + f.Kind + fmt.Sprintf(":w%d", f.Width) + ":" + f.ctx
+			cls := f.Struct + ":" + f.Kind + fmt.Sprintf(":w%d", f.Width) + ":" + f.Ctx
 			// library-written and reference files are covered separately: what the reader does
 			// with a structure depends on what refers to it (a heap collection behind a vlen
 			// attribute is read, one behind a vlen dataset is not)
@@ -266,7 +314,6 @@ func c07ClassCover(n int) map[int]map[uint64]bool {
 			out[k][f.Off<<4|uint64(f.Width)] = true
 		}
 	}
-	c07CoverCache[n] = out
 	return out
 }
 
@@ -288,8 +335,8 @@ func c07Seed(c *ev.Ctx, k int) ([]byte, string, error) {
 
 type c07Field struct {
 	specdec.Field
-	own uint64 // start of the structure the field lives in
-	ctx string // for fields of object header messages: what the object is (layout / type class)
+	Own uint64 // start of the structure the field lives in
+	Ctx string // for fields of object header messages: what the object is (layout / type class)
 }
 
 func c07Fields(b []byte) ([]c07Field, []specdec.Extent) {
@@ -328,12 +375,12 @@ func c07Fields(b []byte) ([]c07Field, []specdec.Extent) {
 		if f.Width <= 0 || f.Width > 8 || f.Off+uint64(f.Width) > uint64(len(b)) {
 			continue
 		}
-		cf := c07Field{Field: f, own: f.Off}
+		cf := c07Field{Field: f, Own: f.Off}
 		for _, x := range ext {
 			if x.Start <= f.Off && f.Off < x.End {
-				cf.own = x.Start
+				cf.Own = x.Start
 				if strings.HasPrefix(f.Struct, "msg:") || f.Struct == "OHDR" || f.Struct == "OCHK" {
-					cf.ctx = ctxOf[x.Owner]
+					cf.Ctx = ctxOf[x.Owner]
 				}
 			}
 		}
@@ -368,7 +415,7 @@ func c07Values(f c07Field, cur uint64, size uint64, root uint64, ext []specdec.E
 	case "version", "type", "flags", "id":
 		vals = []uint64{0, 1, 2, 3, 4, 5, 0x7f, 0x80, max, cur + 1, cur - 1, cur ^ 2, cur ^ 0x10}
 	default:
-		vals = append(vals, size, size-1, size+1, f.own, f.Off, root, 3, 7, 8, 0xff, 0x100, 0xffff, 0x10000, 0xffffffff, 1<<32, 1<<31,
+		vals = append(vals, size, size-1, size+1, f.Own, f.Off, root, 3, 7, 8, 0xff, 0x100, 0xffff, 0x10000, 0xffffffff, 1<<32, 1<<31,
 			1<<62, 1<<61, 1<<60, 1<<50, 1<<40) // products with small element sizes wrap around 2^64
 		if f.Kind == "address" || f.Kind == "offset" {
 			// addresses of two other structures (type confusion, cycles through siblings)
@@ -547,6 +594,9 @@ func c07CanaryDump(path string) string {
 }
 
 func c07Run(c *ev.Ctx) {
+	if c07CacheDir == "" {
+		c07CacheDir = filepath.Dir(filepath.Dir(c.Dir)) // the run's scratch directory
+	}
 	plan := c07PlanFor(c.Tier)
 	nField := len(plan.seeds) * plan.perSeed
 	canary, canaryWant := c07Canary(c)
@@ -640,7 +690,7 @@ func c07Run(c *ev.Ctx) {
 		// bit): a count that announces one more element next to a type code that changes what
 		// the elements are, a size next to a rank, ... Single-field corruption cannot reach
 		// states that need two fields to agree on something wrong.
-		insts := c07PairInstances(c.Pick(2, 10))
+		insts := c07PairInstances(c.Pick(1, 10))
 		slot := c.Index - nField - plan.randCases - c07SynthFamilies
 		sub, ran := 0, 0
 		curSeed := -1
@@ -651,13 +701,13 @@ func c07Run(c *ev.Ctx) {
 			if ii%c07PairCases != slot {
 				continue
 			}
-			if in.seed != curSeed {
+			if in.Seed != curSeed {
 				var err error
-				b, name, err = c07Seed(c, in.seed)
+				b, name, err = c07Seed(c, in.Seed)
 				if err != nil {
 					continue
 				}
-				curSeed = in.seed
+				curSeed = in.Seed
 				base = c07Baseline(c, input, b)
 			}
 			get := func(f c07Field) uint64 {
@@ -666,9 +716,9 @@ func c07Run(c *ev.Ctx) {
 				return binary.LittleEndian.Uint64(tmp[:])
 			}
 			mut := make([]byte, len(b))
-			for i := 0; i < len(in.fields); i++ {
-				for j := i + 1; j < len(in.fields); j++ {
-					fi, fj := in.fields[i], in.fields[j]
+			for i := 0; i < len(in.Fields); i++ {
+				for j := i + 1; j < len(in.Fields); j++ {
+					fi, fj := in.Fields[i], in.Fields[j]
 					if fi.Kind == "signature" || fj.Kind == "signature" || fi.Kind == "checksum" || fj.Kind == "checksum" {
 						continue
 					}
@@ -687,7 +737,7 @@ func c07Run(c *ev.Ctx) {
 								return
 							}
 							c.Mark(sub, fmt.Sprintf("seed=%s pair %s@%d %d->%d and %s@%d %d->%d", name, fi.Kind, fi.Off, ci, vi, fj.Kind, fj.Off, cj, vj))
-							c07Probe(c, input, len(b), base, "pair:"+in.kind, map[string]any{"seed": name, "message": in.kind, "field_a": fmt.Sprintf("%s@%d w%d %d->%d", fi.Kind, fi.Off, fi.Width, ci, vi), "field_b": fmt.Sprintf("%s@%d w%d %d->%d", fj.Kind, fj.Off, fj.Width, cj, vj)})
+							c07Probe(c, input, len(b), base, "pair:"+in.Kind, map[string]any{"seed": name, "message": in.Kind, "field_a": fmt.Sprintf("%s@%d w%d %d->%d", fi.Kind, fi.Off, fi.Width, ci, vi), "field_b": fmt.Sprintf("%s@%d w%d %d->%d", fj.Kind, fj.Off, fj.Width, cj, vj)})
 							ran++
 						}
 					}
